@@ -49,6 +49,16 @@ inductive SeqErr where
   | fault (f : Fault)
   deriving Repr
 
+/-- `DecoderScratch::reset` on the entropy part (decoding/scratch.rs:52-70): `FSETable::reset` on the
+three tables (they keep their `max_symbol`), the RLE symbols `None`, `HuffmanTable::reset`,
+`offset_hist = [1, 4, 8]` -/
+def Scratch.reset (s : Scratch) : Scratch :=
+  { huf := Huf.DecTable.empty,
+    fse := { offsets := s.fse.offsets.reset, ofRle := none,
+             literalLengths := s.fse.literalLengths.reset, llRle := none,
+             matchLengths := s.fse.matchLengths.reset, mlRle := none },
+    hist := (1, 4, 8) }
+
 def modeOf (bits : Nat) : Nat := (lookupNat Gen.seqModeMap bits).getD 0
 
 /-- one of the three arms of `maybe_update_fse_tables`.
@@ -149,6 +159,37 @@ def seqLoop (s : FseScratch) (total : Nat) :
               if br.bitsRemaining < 0 then .error .notEnoughBytesForNumSequences
               else seqLoop s total n llD mlD ofD br acc
 
+/-- the bitstream part of `decode_sequences` (sequence_section_decoder.rs:26-62 and the two loops):
+`bitStream` = `&source[bytes_read..]`; skip the end mark, initialise the three states (LL, OF, ML;
+each only when its mode is not RLE), run the loop, require that no bits are left over -/
+def decodeSeqStream (n : Nat) (s : FseScratch) (bitStream : Array Nat) : Except SeqErr (List Spec.Seq) :=
+  let br := BitReaderRev.new bitStream
+  match Fse.skipEndMark br with
+  | .error f => .error (.fault f)
+  | .ok none => .error (.extraPadding 9)
+  | .ok (some br) =>
+    let llD := Fse.Decoder.new s.literalLengths
+    let mlD := Fse.Decoder.new s.matchLengths
+    let ofD := Fse.Decoder.new s.offsets
+    -- init order: LL, OF, ML (each only when not RLE)
+    let r : Except SeqErr (Fse.Decoder × Fse.Decoder × Fse.Decoder × BitReaderRev) :=
+      match (if s.llRle.isNone then liftFse (llD.initState s.literalLengths br) else .ok (llD, br)) with
+      | .error e => .error e
+      | .ok (llD, br) =>
+        match (if s.ofRle.isNone then liftFse (ofD.initState s.offsets br) else .ok (ofD, br)) with
+        | .error e => .error e
+        | .ok (ofD, br) =>
+          match (if s.mlRle.isNone then liftFse (mlD.initState s.matchLengths br) else .ok (mlD, br)) with
+          | .error e => .error e
+          | .ok (mlD, br) => .ok (llD, mlD, ofD, br)
+    match r with
+    | .error e => .error e
+    | .ok (llD, mlD, ofD, br) =>
+      match seqLoop s n n llD mlD ofD br [] with
+      | .error e => .error e
+      | .ok (seqs, br) =>
+        if br.bitsRemaining > 0 then .error (.extraBits br.bitsRemaining) else .ok seqs
+
 /-- `decode_sequences(section, source, scratch, target)`; `n` = `section.num_sequences` -/
 def decodeSequences (n : Nat) (modes : Option Nat) (source : List Nat) (s : FseScratch) :
     FseScratch × Except SeqErr (List Spec.Seq) :=
@@ -157,32 +198,7 @@ def decodeSequences (n : Nat) (modes : Option Nat) (source : List Nat) (s : FseS
   | (s, .error e) => (s, .error e)
   | (s, .ok bytesRead) =>
     if bytesRead > src.size then (s, .error (.fault (.index "sequence_section_decoder.rs:source[bytes_read..]"))) else
-    let br := BitReaderRev.new (src.extract bytesRead src.size)
-    match Fse.skipEndMark br with
-    | .error f => (s, .error (.fault f))
-    | .ok none => (s, .error (.extraPadding 9))
-    | .ok (some br) =>
-      let llD := Fse.Decoder.new s.literalLengths
-      let mlD := Fse.Decoder.new s.matchLengths
-      let ofD := Fse.Decoder.new s.offsets
-      -- init order: LL, OF, ML (each only when not RLE)
-      let r : Except SeqErr (Fse.Decoder × Fse.Decoder × Fse.Decoder × BitReaderRev) :=
-        match (if s.llRle.isNone then liftFse (llD.initState s.literalLengths br) else .ok (llD, br)) with
-        | .error e => .error e
-        | .ok (llD, br) =>
-          match (if s.ofRle.isNone then liftFse (ofD.initState s.offsets br) else .ok (ofD, br)) with
-          | .error e => .error e
-          | .ok (ofD, br) =>
-            match (if s.mlRle.isNone then liftFse (mlD.initState s.matchLengths br) else .ok (mlD, br)) with
-            | .error e => .error e
-            | .ok (mlD, br) => .ok (llD, mlD, ofD, br)
-      match r with
-      | .error e => (s, .error e)
-      | .ok (llD, mlD, ofD, br) =>
-        match seqLoop s n n llD mlD ofD br [] with
-        | .error e => (s, .error e)
-        | .ok (seqs, br) =>
-          if br.bitsRemaining > 0 then (s, .error (.extraBits br.bitsRemaining)) else (s, .ok seqs)
+    (s, decodeSeqStream n s (src.extract bytesRead src.size))
 
 /-- what `decompress_block` can report, at the granularity of the Rust error variant families
 (the same names `errmap.rs` gives the real errors) -/
@@ -214,6 +230,47 @@ inductive BOut where
 def litTypeOf (ty : Nat) : Huf.LitType :=
   if ty = 0 then .raw else if ty = 1 then .rle else if ty = 2 then .compressed else .treeless
 
+/-- `decompress_block` after `upper_limit_for_literals`: `raw` = the block content behind the
+literals header, `upper` = the upper limit (block_decoder.rs:131-199) -/
+def decompressBody (s : Scratch) (b : DBuf) (sec : Hdr.LitSection) (raw : List Nat) (upper : Nat) :
+    (Scratch × DBuf × List Nat × List Spec.Seq) × BOut :=
+  if raw.length < upper then ((s, b, [], []), .err .malformedSection) else
+  let lsec : Huf.LitSection := { lsType := litTypeOf sec.ty, regeneratedSize := sec.regen,
+                                 compressedSize := sec.comp, numStreams := sec.streams }
+  match Huf.decodeLiterals lsec s.huf (raw.take upper) [] with
+  | (huf, .error (.fault f)) => (({ s with huf := huf }, b, [], []), .fault f)
+  | (huf, .error (.err _)) => (({ s with huf := huf }, b, [], []), .err .literals)
+  | (huf, .ok (lits, used)) =>
+    let s := { s with huf := huf }
+    if sec.regen ≠ lits.length then ((s, b, lits, []), .fault (.assert "block_decoder.rs:decompress_block:Wrong number of literals"))
+    else if used ≠ upper then ((s, b, lits, []), .fault (.assert "block_decoder.rs:decompress_block:bytes_used_in_literals_section"))
+    else
+      let raw2 := raw.drop upper
+      match parseSeqHeader raw2 with
+      | .error _ => ((s, b, lits, []), .err .seqHeader)
+      | .ok (n, modes, shLen) =>
+        let raw3 := raw2.drop shLen
+        if n ≠ 0 then
+          match decodeSequences n modes raw3 s.fse with
+          | (fse, .error (.fault f)) => (({ s with fse := fse }, b, lits, []), .fault f)
+          | (fse, .error _) => (({ s with fse := fse }, b, lits, []), .err .sequences)
+          | (fse, .ok seqs) =>
+            let s := { s with fse := fse }
+            match executeSequences seqs lits s.hist 0 b with
+            | ((b', h), .ok ()) => (({ s with hist := h }, b', lits, seqs), .ok)
+            | ((b', h), .err e) => (({ s with hist := h }, b', lits, seqs), .err (.exec e))
+            | ((b', h), .fault f) => (({ s with hist := h }, b', lits, seqs), .fault f)
+        else
+          if !raw3.isEmpty then ((s, b, lits, []), .err .sequences)
+          else ((s, b.push lits.toArray, lits, []), .ok)
+
+/-- `upper_limit_for_literals` (block_decoder.rs:131-146) -/
+def upperLimit (sec : Hdr.LitSection) : Except Fault Nat :=
+  match sec.comp with
+  | some x => .ok x
+  | none => if sec.ty = 1 then .ok 1 else if sec.ty = 0 then .ok sec.regen
+            else .error (.unreachable "block_decoder.rs:upper_limit_for_literals:Bug in this library")
+
 /-- `BlockDecoder::decompress_block` on the block content, with the literals and sequences it
 decoded (for comparison with the real scratch) -/
 def decompressBlock (content : List Nat) (s : Scratch) (b : DBuf) :
@@ -224,42 +281,8 @@ def decompressBlock (content : List Nat) (s : Scratch) (b : DBuf) :
   | .ok (sec, hdrLen) =>
     let raw := content.drop hdrLen
     if sec.regen > Gen.maxBlockSize then ((s, b, [], []), .err (.literalsTooLarge sec.regen)) else
-    let upper : Except Fault Nat :=
-      match sec.comp with
-      | some x => .ok x
-      | none => if sec.ty = 1 then .ok 1 else if sec.ty = 0 then .ok sec.regen
-                else .error (.unreachable "block_decoder.rs:upper_limit_for_literals:Bug in this library")
-    match upper with
+    match upperLimit sec with
     | .error f => ((s, b, [], []), .fault f)
-    | .ok upper =>
-      if raw.length < upper then ((s, b, [], []), .err .malformedSection) else
-      let lsec : Huf.LitSection := { lsType := litTypeOf sec.ty, regeneratedSize := sec.regen,
-                                     compressedSize := sec.comp, numStreams := sec.streams }
-      match Huf.decodeLiterals lsec s.huf (raw.take upper) [] with
-      | (huf, .error (.fault f)) => (({ s with huf := huf }, b, [], []), .fault f)
-      | (huf, .error (.err _)) => (({ s with huf := huf }, b, [], []), .err .literals)
-      | (huf, .ok (lits, used)) =>
-        let s := { s with huf := huf }
-        if sec.regen ≠ lits.length then ((s, b, lits, []), .fault (.assert "block_decoder.rs:decompress_block:Wrong number of literals"))
-        else if used ≠ upper then ((s, b, lits, []), .fault (.assert "block_decoder.rs:decompress_block:bytes_used_in_literals_section"))
-        else
-          let raw2 := raw.drop upper
-          match parseSeqHeader raw2 with
-          | .error _ => ((s, b, lits, []), .err .seqHeader)
-          | .ok (n, modes, shLen) =>
-            let raw3 := raw2.drop shLen
-            if n ≠ 0 then
-              match decodeSequences n modes raw3 s.fse with
-              | (fse, .error (.fault f)) => (({ s with fse := fse }, b, lits, []), .fault f)
-              | (fse, .error _) => (({ s with fse := fse }, b, lits, []), .err .sequences)
-              | (fse, .ok seqs) =>
-                let s := { s with fse := fse }
-                match executeSequences seqs lits s.hist 0 b with
-                | ((b', h), .ok ()) => (({ s with hist := h }, b', lits, seqs), .ok)
-                | ((b', h), .err e) => (({ s with hist := h }, b', lits, seqs), .err (.exec e))
-                | ((b', h), .fault f) => (({ s with hist := h }, b', lits, seqs), .fault f)
-            else
-              if !raw3.isEmpty then ((s, b, lits, []), .err .sequences)
-              else ((s, b.push lits.toArray, lits, []), .ok)
+    | .ok upper => decompressBody s b sec raw upper
 
 end Zstd.Model.Blk
